@@ -38,6 +38,7 @@ class RefHist:
         self.cls = {}    # object name -> class name
         self.ref = {}    # (holder, slot) -> object name | None
         self.union = set()  # slots that are union references
+        self.uclass = {}    # union slot -> its union class (default: U)
         self.found = []
         self.nnew = 0
 
@@ -81,6 +82,14 @@ class RefHist:
         I.call(I.getattr(self.h["ra2"], "__setitem__"), [(1, 0), self.h["t2"]], {})
         self.ref[("ra2", (0, 1))] = "t1"
         self.ref[("ra2", (1, 0))] = "t2"
+        # a second union class with the SAME members at OTHER positions (member ids are positions in the class's own
+        # list: anything kept per member name across union classes records the other class's id -- seeded C08-g)
+        self.V = I.call(I.class_attrs(MU)["__new__"], [MU, "V", (U0,), {"_reftypes": (self.T2, self.T)}], {})
+        self.HV = lab.struct("HV", [("k", F), ("u", self.V)])
+        self.h["hv"] = I.call(self.HV, [], {"k": 0.25, "_buffer": A})
+        self.ref[("hv", "u")] = None
+        self.union.add(("hv", "u"))
+        self.uclass[("hv", "u")] = self.V
         self.UA = lab.array("URefArr", [2], (0,), self.U)
         self.h["rau"] = I.call(self.UA, [], {"_buffer": A})
         for k in range(2):
@@ -105,7 +114,7 @@ class RefHist:
         I = self.I
         h = self.h[holder]
         v = I.call(I.getattr(h, "__getitem__"), [key], {}) if holder.startswith("ra") else I.getattr(h, key)
-        if (holder, key) in self.union and isinstance(v, Obj) and v.cls is self.U:
+        if (holder, key) in self.union and isinstance(v, Obj) and v.cls is self.uclass.get((holder, key), self.U):
             return I.call(I.getattr(v, "get"), [], {})
         return v
 
@@ -140,9 +149,10 @@ class RefHist:
                     self.found.append((step, opn, f"{label} denotes {tgt} at {tpos!r}: the slot at {sp!r} holds {w0!r}, not the relative position {(tpos - sp)!r}"))
                     continue
                 if is_union:
-                    want_id = 0 if self.cls[tgt] == "T" else 1
+                    ucls = self.uclass.get((holder, key), self.U)
+                    want_id = [c.name for c in ucls.attrs["_reftypes"]].index(self.cls[tgt])
                     if self.word(sp, 1) != Poly.const(want_id):
-                        self.found.append((step, opn, f"{label} denotes a {self.cls[tgt]}: member index {self.word(sp, 1)!r} recorded, {want_id} expected"))
+                        self.found.append((step, opn, f"{label} denotes a {self.cls[tgt]}: member index {self.word(sp, 1)!r} recorded, {want_id} expected (its position among the members {[c.name for c in ucls.attrs['_reftypes']]} of {ucls.name})"))
                         continue
                 if not (isinstance(got, Obj) and got.cls is not None and got.cls.name == self.cls[tgt]):
                     self.found.append((step, opn, f"{label} reads {got!r}, not a view of class {self.cls[tgt]}"))
@@ -430,6 +440,9 @@ OPS = {
     "copy-unionref-same-buffer": lambda H: H.copy_unionref_object("same"),
     "copy-unionref-other-buffer": lambda H: H.copy_unionref_object("other"),
     "union-item-bind": lambda H: H.bind("rau", 1, "tz"),
+    "union2-bind-first-member": lambda H: H.bind("hv", "u", "tz"),
+    "union2-bind-second-member": lambda H: H.bind("hv", "u", "t1"),
+    "union2-bind-value": lambda H: H.bind("hv", "u", "value"),
     "item-bind-existing": lambda H: H.bind("ra", 1, "t2"),
     "item-bind-value": lambda H: H.bind("ra", 2, "value"),
     "item-null": lambda H: H.bind("ra", 1, "null"),
